@@ -306,7 +306,12 @@ enum Mode {
     /// 2..=3 frames of 100..300 bytes each (the buffer grows while earlier frames are still in it);
     /// reads may end early next to a growth step or a frame boundary
     Medium,
+    /// one frame of 4 KiB .. 300 KB (thorough: 1 MiB): one below, at, one above powers of two,
+    /// alone / after a tiny frame / before one; a read may end early next to a power of two
+    Large { upto: usize },
 }
+
+const LARGE_SIZES: &[usize] = &[4095, 4096, 4097, 8191, 8192, 8193, 16383, 16384, 16385, 32767, 32768, 32769, 65535, 65536, 65537, 131071, 131072, 131073, 300_000, 1_048_575, 1_048_576, 1_048_577];
 
 const MEDIUM_SIZES: &[usize] = &[100, 155, 156, 200, 255, 256, 300];
 
@@ -337,6 +342,7 @@ impl Framing {
             Mode::Growth { near_only } => json!({"growth": {"near_only": near_only}}),
             Mode::Burst => json!("burst"),
             Mode::Medium => json!("medium"),
+            Mode::Large { upto } => json!({"large": {"upto": upto}}),
         };
         json!({"target": self.target, "target_name": self.targets[self.target].name, "mode": mode, "cancel": self.cancel})
     }
@@ -352,6 +358,8 @@ impl Framing {
             Mode::Small { max_frames: s["max_frames"].as_u64()? as usize, all_upto: s["all_upto"].as_u64()? as usize }
         } else if let Some(g) = m.get("growth") {
             Mode::Growth { near_only: g["near_only"].as_bool()? }
+        } else if let Some(l) = m.get("large") {
+            Mode::Large { upto: l["upto"].as_u64()? as usize }
         } else {
             return None;
         };
@@ -431,6 +439,45 @@ impl Harness for Framing {
                 }
                 cut_set = Some(set);
                 cx.goal("buffer-grows-behind-an-earlier-frame");
+            }
+            Mode::Large { upto } => {
+                let sizes: Vec<usize> = LARGE_SIZES.iter().copied().filter(|s| s <= upto).collect();
+                let size = sizes[cx.choose(sizes.len(), "large:size")];
+                let variant = cx.choose(3, "large:valid|garbage|multibyte-undecodable");
+                let place = cx.choose(3, "large:alone|after-tiny|before-tiny");
+                let big = (t.sized)(size, variant == 0, if variant <= 1 { 3 } else { 100 + (size % 6) as u8 });
+                let tiny = t.sigma[0].clone();
+                let at = if place == 1 { tiny.bytes.len() + 1 } else { 0 };
+                match place {
+                    0 => frames.push(big),
+                    1 => {
+                        frames.push(tiny);
+                        frames.push(big);
+                    }
+                    _ => {
+                        frames.push(big);
+                        frames.push(tiny);
+                    }
+                }
+                // reads may end early one before, at or one after a power of two (counted from the
+                // start of the stream and from the start of the large frame) and near the frame's end
+                let mut set = std::collections::BTreeSet::new();
+                let mut p = 256usize;
+                while p <= size + 1 {
+                    for base in [0, at] {
+                        for d in [p - 1, p, p + 1] {
+                            set.insert(base + d);
+                        }
+                    }
+                    p *= 2;
+                }
+                for d in [size - 1, size, size + 1] {
+                    set.insert(at + d);
+                }
+                cut_set = Some(set);
+                if size >= 65536 {
+                    cx.goal("frame-of-64KiB-or-more");
+                }
             }
             Mode::Burst => {
                 let n = 2 + cx.choose(39, "burst:count-2");
@@ -533,6 +580,9 @@ fn phases(tier: Tier, cancel: bool) -> Vec<(String, usize, Mode, u32)> {
                 v.push((format!("growth-near-step-cuts/t{t}"), t, Mode::Growth { near_only: true }, 1));
             }
             v.push((format!("burst/t{t}"), t, Mode::Burst, tier.pick(1, 2)));
+            if main {
+                v.push((format!("large/t{t}"), t, Mode::Large { upto: tier.pick(300_000, 2_000_000) }, tier.pick(1, 2)));
+            }
             v.push((format!("medium/t{t}"), t, Mode::Medium, if main { tier.pick(2, 3) } else { tier.pick(1, 2) }));
         } else {
             // C07: every read poll may be pending, every pending may be followed by a cancellation
@@ -555,7 +605,7 @@ fn phases(tier: Tier, cancel: bool) -> Vec<(String, usize, Mode, u32)> {
 fn run(prop: &str, tier: Tier, cancel: bool) -> i32 {
     let mut rep = Report::new(prop, tier.name());
     rep.rule = if !cancel {
-        "DFS by re-execution over: frame sequence (alphabet^<=3 per target type; one frame of every growth-boundary size alone/after/before a tiny frame - valid, garbage bytes, or undecodable but valid UTF-8 made of three-byte characters at each of the three alignments (unbalanced JSON / a JSON array); bursts of 2..40 tiny frames; 2..3 frames of 100..300 bytes each, so that the buffer grows while earlier frames are still in it, with reads ending early next to growth steps and frame boundaries) x what every transport read returns (every partition of the byte stream for short streams, every cut set up to the deviation budget otherwise). An execution is one complete receive history on a fresh Connection; outcomes are distinct (result sequence, number of reads)".to_string()
+        "DFS by re-execution over: frame sequence (alphabet^<=3 per target type; one frame of every growth-boundary size alone/after/before a tiny frame - valid, garbage bytes, or undecodable but valid UTF-8 made of three-byte characters at each of the three alignments (unbalanced JSON / a JSON array); bursts of 2..40 tiny frames; one frame of 4 KiB .. 300 KB (thorough 1 MiB), one below / at / one above every power of two, valid or undecodable, alone / after / before a tiny frame, a read ending early next to a power of two; 2..3 frames of 100..300 bytes each, so that the buffer grows while earlier frames are still in it, with reads ending early next to growth steps and frame boundaries) x what every transport read returns (every partition of the byte stream for short streams, every cut set up to the deviation budget otherwise). An execution is one complete receive history on a fresh Connection; outcomes are distinct (result sequence, number of reads)".to_string()
     } else {
         "as C01, plus at every transport read poll the choice {ready, pending} and after every pending the choice {re-poll the same receive future, drop it and create a new one}; every subset of suspension points is cancelled for the short streams".to_string()
     };
@@ -569,6 +619,7 @@ fn run(prop: &str, tier: Tier, cancel: bool) -> i32 {
     }
     if !cancel {
         rep.require_goal("burst");
+        rep.require_goal("frame-of-64KiB-or-more");
     }
     rep.require_goal("frame-crosses-growth-step");
     rep.require_goal("long-undecodable-frame-of-multibyte-characters");
